@@ -52,7 +52,7 @@ def run(pid, tier, seed):
     # (the sanitizer build of the generated dispatch takes two minutes per changed tree: thorough tier only)
     exe_asan = vlib.build_harness("make", ["make.cxx"], cfg="asan") if (pid == "C14" and not q) else None
     consts = {"Use": "<- FactoryNames", "MaxLinks": 2 if q else 4, "Record": "TRUE"}
-    tdir = os.path.join(vlib.BUILD, "traces")
+    tdir = vlib.trace_dir()
     os.makedirs(tdir, exist_ok=True)
     tps = []
     for k in range(2 if q else 6):
@@ -150,6 +150,17 @@ def run(pid, tier, seed):
         coverage["unified_constructors"] = {"jobs": uc["jobs"], "recorded_events": uc["recorded_events"]}
         coverage["rule"] += " The get_ constructors of types, names and atoms are covered by IprUnify behaviours whose read-back " \
                             "(operands, qualifiers, spelling, transfer) is compared per call."
+        violations += u["violations"]
+    if pid == "C09":
+        # unified nodes have prescribed types as well (symbols, literals, type nodes): IprUnify's `ty` read-back
+        import p_unify
+        u = p_unify.run("C09", tier, seed)
+        uc = u["coverage"]
+        for k in ("states", "transitions", "traces_validated_against_impl", "evaluations", "distinct_nontrivial"):
+            coverage[k] += uc[k]
+        coverage["unified_constructors"] = {"jobs": uc["jobs"], "recorded_events": uc["recorded_events"]}
+        coverage["rule"] += " The types of unified nodes (symbols, labels, this, literals, type nodes) are covered by IprUnify " \
+                            "behaviours and recorded histories in which earlier nodes are re-read after later requests."
         violations += u["violations"]
     return {"coverage": coverage, "violations": violations,
             "assumptions": ["the node table (tools/gen_nodes.py) is the oracle; it is written from the interface documentation",
